@@ -399,6 +399,9 @@ func checkC15(run *mon.Run, rng *mon.Rand, thorough bool) {
 	for r := 0; r < rounds && !run.TooMany(); r++ {
 		for _, vn := range names {
 			o := newOracleEnv(c15PowerVectors[vn], c15Pairs)
+			if rng.Bool() {
+				o.EnableShadow(rng.U64())
+			}
 			var log []string
 			ts := int64(1_700_000_000_000_000_000)
 			enabled := true
